@@ -161,3 +161,76 @@ Proof.
     destruct (count_limit <? zlen l) eqn:E; [lia|]. rewrite Hnb. cbn [array_flatten dwrap norm].
     rewrite firstn_all. destruct e; try reflexivity. discriminate Hnb.
 Qed.
+
+(* ------------------------------------------------------------------ dict input is read BY NAME *)
+(* Struct._encode does `values[typ.name]` per member: the bytes depend only on the name -> value
+   lookups of the member names — not on the order of the dict, nor on other keys *)
+From Coq Require Import Permutation.
+
+Lemma struct_encode_dict_ext (encs : list (key * (val -> res bytes))) (d d' : list (key * val)) :
+  (forall m, In m encs -> dict_get d (fst m) = dict_get d' (fst m)) ->
+  struct_encode_dict encs d = struct_encode_dict encs d'.
+Proof.
+  induction encs as [|[k enc] encs IH]; intros H; [reflexivity|].
+  cbn [struct_encode_dict]. pose proof (H (k, enc) (or_introl eq_refl)) as Hk. cbn [fst] in Hk. rewrite Hk.
+  destruct (dict_get d' k) as [x|]; [|reflexivity]. cbn [bind]. destruct (enc x); [|reflexivity]. cbn [bind].
+  rewrite IH; [reflexivity|]. intros m Hin. apply H. now right.
+Qed.
+
+Theorem struct_dict_lookup ms kvs kvs' :
+  (forall m, In m ms -> dict_get kvs (fst m) = dict_get kvs' (fst m)) ->
+  encode (TStruct SPlain ms) (VDict kvs) = encode (TStruct SPlain ms) (VDict kvs').
+Proof.
+  intros H. cbn [encode]. unfold struct_encode, pub_encode. f_equal. cbn [struct_encode_inner].
+  apply struct_encode_dict_ext. intros m Hin. apply in_map_iff in Hin as (m0 & <- & Hin0). cbn [fst]. now apply H.
+Qed.
+
+Lemma dict_get_not_in d k : ~ In k (map fst d) -> dict_get d k = Err (Foreign KeyError).
+Proof.
+  induction d as [|[k' v] d IH]; intros H; [reflexivity|]. cbn [dict_get].
+  destruct (keyb k' k) eqn:E.
+  - apply keyb_eq in E. subst. exfalso. apply H. now left.
+  - apply IH. intros Hin. apply H. now right.
+Qed.
+
+Lemma dict_get_perm d d' k : Permutation d d' -> NoDup (map fst d) -> dict_get d k = dict_get d' k.
+Proof.
+  induction 1 as [|[k1 v1] d d' Hp IH|[k1 v1] [k2 v2] d|d1 d2 d3 H12 IH12 H23 IH23]; intros Hnd.
+  - reflexivity.
+  - cbn [dict_get]. destruct (keyb k1 k); [reflexivity|]. apply IH. now inversion Hnd.
+  - cbn [dict_get]. destruct (keyb k2 k) eqn:E2, (keyb k1 k) eqn:E1; try reflexivity.
+    apply keyb_eq in E1, E2. subst. exfalso. cbn [map fst] in Hnd. inversion Hnd as [|? ? Hn _]. apply Hn. now left.
+  - rewrite IH12 by exact Hnd. apply IH23. eapply Permutation_NoDup; [|exact Hnd]. now apply Permutation_map.
+Qed.
+
+(* the order of the dict does not matter *)
+Theorem struct_dict_permutation ms kvs kvs' :
+  Permutation kvs kvs' -> NoDup (map fst kvs) ->
+  encode (TStruct SPlain ms) (VDict kvs) = encode (TStruct SPlain ms) (VDict kvs').
+Proof. intros Hp Hnd. apply struct_dict_lookup. intros m _. now apply dict_get_perm. Qed.
+
+(* a key that is no member's name does not matter *)
+Theorem struct_dict_extra_key ms pre k x post :
+  (forall m, In m ms -> fst m <> k) ->
+  encode (TStruct SPlain ms) (VDict (pre ++ (k, x) :: post)) = encode (TStruct SPlain ms) (VDict (pre ++ post)).
+Proof.
+  intros Hk. apply struct_dict_lookup. intros m Hin. specialize (Hk m Hin).
+  induction pre as [|[k' v'] pre IH]; cbn [app dict_get].
+  - destruct (keyb k (fst m)) eqn:E; [apply keyb_eq in E; congruence|reflexivity].
+  - destruct (keyb k' (fst m)); [reflexivity|exact IH].
+Qed.
+
+(* a member whose name is missing from the dict: DataError (KeyError inside the wrapper) *)
+Theorem struct_dict_missing_key ms kvs m :
+  In m ms -> ~ In (fst m) (map fst kvs) -> encode (TStruct SPlain ms) (VDict kvs) = Err DataError.
+Proof.
+  intros Hin Hk. cbn [encode]. unfold struct_encode, pub_encode. cbn [struct_encode_inner].
+  assert (H : exists e, struct_encode_dict (map (fun m0 => (fst m0, as_member (snd m0) (encode (snd m0)))) ms) kvs = Err e).
+  { induction ms as [|m0 ms IH]; [destruct Hin|]. cbn [map struct_encode_dict fst].
+    destruct Hin as [->|Hin].
+    - rewrite (dict_get_not_in _ _ Hk). cbn [bind]. eauto.
+    - destruct (dict_get kvs (fst m0)) as [x|]; cbn [bind]; [|eauto].
+      destruct (as_member (snd m0) (encode (snd m0)) x); cbn [bind]; [|eauto].
+      destruct (IH Hin) as (e & ->). cbn [bind]. eauto. }
+  destruct H as (e & ->). reflexivity.
+Qed.
